@@ -13,5 +13,6 @@ Next ==
   \/ /\ rounds < MaxRounds /\ rounds' = rounds + 1
      /\ \/ RoundClean
         \/ \E c \in {"issues", "notes", "labels", "states"}, i \in Issue : RoundFailedAt(c, i)
+        \/ \E u \in Users : RoundFailedUser(u)
 Spec == Init /\ rounds = 0 /\ [][Next]_<<vars, rounds>>
 =============================================================================
